@@ -9,6 +9,7 @@ package c17
 
 import (
 	"fmt"
+	"os"
 	"strings"
 	"sync"
 	"sync/atomic"
@@ -53,6 +54,7 @@ type schedResult struct {
 	events       map[string]int
 	steps        int
 	stepcap      bool
+	trace        string // only with VERIF_C17_TRACE
 }
 
 func ready(ch <-chan struct{}) bool {
@@ -157,6 +159,9 @@ func runSched(cs Case) schedResult {
 					c.flags["ev:waiter-blocked"] = true
 					if w.curOp == "multi" {
 						c.flags["ev:multi-blocked"] = true
+						if len(w.curQs) >= 2 {
+							c.flags["ev:multi-2+queues-blocked"] = true
+						}
 					} else if len(w.curQs) == 1 {
 						waitersOn[w.curQs[0]]++
 						if waitersOn[w.curQs[0]] >= 2 {
@@ -267,8 +272,13 @@ func runSched(cs Case) schedResult {
 	r.mu.Lock()
 	res.events = r.events
 	r.mu.Unlock()
+	if traceEnv {
+		res.trace = c.traceString()
+	}
 	return res
 }
+
+var traceEnv = os.Getenv("VERIF_C17_TRACE") != ""
 
 // judgeStuck is called at quiescence with unfinished workers. Every one of
 // them is parked right before Acquire's select with neither channel ready, no
